@@ -427,7 +427,7 @@ def harvester_case(acc, rng, tmp):
 
 
 def units(tier, seed):
-    n = 40 if tier == "quick" else 6400
+    n = 40 if tier == "quick" else 1600
     us = [{"kind": "generated", "seed": seed * 6007 + i, "families": 4, "triples": 60 if tier == "quick" else 120} for i in range(0, n, 4)]
     us += [{"kind": "installed", "seed": seed * 19 + i, "triples": 25 if tier == "quick" else 200} for i in range(2 if tier == "quick" else 16)]
     return us
